@@ -15,7 +15,9 @@ DIMS = [
  ('env:MIMALLOC_ABANDONED_RECLAIM_ON_FREE', ['0', '1']),
  ('env:MIMALLOC_ABANDONED_PAGE_PURGE', ['0', '1']),
  ('env:MIMALLOC_TARGET_SEGMENTS_PER_THREAD', ['0', '3']),
- ('env:MIMALLOC_ALLOW_LARGE_OS_PAGES', ['0', '2']),
+ ('env:MIMALLOC_ALLOW_LARGE_OS_PAGES', ['0', '1', '2']),
+ ('hugetlb', ['0', '2']),
+ ('env:MIMALLOC_RESERVE_OS_MEMORY', ['0', '131072']),
  ('overcommit', ['0', '2']),
  ('madv_free_mode', ['0', '1']),
  ('place_policy', ['0', '2']),
